@@ -121,6 +121,9 @@ def _table(ctx: Ctx):
         ("F29", lambda: defassign.r_definite_assignment(ctx, "F29")),
         ("F30", lambda: typedcalls.r_typed_attributes(ctx, "F30")),
         ("F31", lambda: typedcalls.r_call_arity(ctx, "F31")),
+        ("F32", lambda: classlevel.r_metadata_ignores_payload(ctx, "F32")),
+        ("F33", lambda: classlevel.r_no_order_from_fresh_sets(ctx, "F33")),
+        ("F34", lambda: classlevel.r_no_truthiness_dunders(ctx, "F34")),
         ("R15.1", lambda: structure.r15_1_rewriters_stop_at_locked(ctx)),
     ]
 
